@@ -105,6 +105,12 @@ CHECKS = {
         "Line granularity, not bytecode granularity; C-level lru_cache internals are not pre-empted; a lock-based repair would be reported as harness deadlock (exit 2).",
         "§4 C20",
     ),
+    "C19": (
+        "model-based stateful generation in fresh worlds: Hypothesis histories of anonymous construction, naming, failing definitions (duplicate/malformed arguments in every position, injected exceptions) and module imports in generated order; declared-bindings model from intercepted definition calls; registry snapshots around every call",
+        "Exploration over histories, fault sequences and import-order configurations: after every step every declared name/symbol resolves to its object and is reported by it, no name/symbol belongs to two objects, a raising call leaves all registries identical, and the final named registries equal those of the default import order.",
+        "A call that returns normally and was given a name/symbol for an anonymous (or identically named) object counts as a declaration; intercepted from outside without source hooks.",
+        "§4 C19",
+    ),
 }
 
 NOT_YET = {}
